@@ -54,6 +54,12 @@ def run(repo, rep):
     rep.clause("C11-d3", "the reader owns a private copy of constant data (rewrites edit tensor values in place)")
     rep.clause("C11-e", "rewrites that may visit CPU-resident operators do not mutate them before checking run_on_npu (thorough tier)")
     rep.undecided("that each surviving operator appears exactly once in dependency order for every network; that the file parses with a plain flatbuffer parser")
+    from .shared import none_skip_lint
+
+    none_skip_lint(repo, rep, "C11-c", ['extract_npu_subgraphs', 'nn_graph', 'pass_packing', 'rewrite_graph'])
+    from .shared import truthiness_lint
+
+    truthiness_lint(repo, rep, "C11-d", ['tflite_writer', 'tflite_reader', 'tflite_mapping'])
     from .shared import mirror_families
 
     mirror_families(repo, rep, "C11-d", {('operation', 'res', 'self'): 'Operation.clone'})
